@@ -95,6 +95,14 @@ pub enum DocOp {
     /// JSON-pointer edit of the document after signing
     Set { ptr: String, value: Value },
     Remove { ptr: String },
+    /// insert elements into the array at `ptr`, before position `index`
+    Insert { ptr: String, index: usize, values: Vec<Value> },
+    /// rename an object member (value kept)
+    Rename { ptr: String, to: String },
+    /// signature #at is relabelled with a literal key id
+    RelabelId { at: usize, id: String },
+    /// a copy of signature #at is appended under key #to's id
+    SigDupAs { at: usize, to: usize },
 }
 
 #[derive(Clone, Debug, Serialize, Deserialize, PartialEq, Default)]
@@ -364,6 +372,24 @@ pub fn apply_op(doc: &mut Value, op: &DocOp, keyspecs: &[KeySpec]) -> bool {
                 false
             }
         }
+        DocOp::SigDupAs { at, to } => {
+            if *at < nsig && *to < keyspecs.len() {
+                let mut s = doc["signatures"][*at].clone();
+                s["keyid"] = json!(keys::key(keyspecs[*to]).id.clone());
+                doc["signatures"].as_array_mut().unwrap().push(s);
+                true
+            } else {
+                false
+            }
+        }
+        DocOp::RelabelId { at, id } => {
+            if *at < nsig && doc["signatures"][*at]["keyid"] != json!(id) {
+                doc["signatures"][*at]["keyid"] = json!(id);
+                true
+            } else {
+                false
+            }
+        }
         DocOp::SigFlip { at, bit } => {
             if *at < nsig {
                 let h = doc["signatures"][*at]["sig"].as_str().unwrap_or("").to_string();
@@ -379,6 +405,32 @@ pub fn apply_op(doc: &mut Value, op: &DocOp, keyspecs: &[KeySpec]) -> bool {
         }
         DocOp::Set { ptr, value } => set_ptr(doc, ptr, value.clone()),
         DocOp::Remove { ptr } => remove_ptr(doc, ptr),
+        DocOp::Insert { ptr, index, values } => match doc.pointer_mut(ptr) {
+            Some(Value::Array(a)) if *index <= a.len() && !values.is_empty() => {
+                for (i, v) in values.iter().enumerate() {
+                    a.insert(index + i, v.clone());
+                }
+                true
+            }
+            _ => false,
+        },
+        DocOp::Rename { ptr, to } => {
+            let (parent, last) = match ptr.rfind('/') {
+                Some(i) => (&ptr[..i], &ptr[i + 1..]),
+                None => return false,
+            };
+            let last = last.replace("~1", "/").replace("~0", "~");
+            match doc.pointer_mut(parent) {
+                Some(Value::Object(m)) if !m.contains_key(to) => match m.remove(&last) {
+                    Some(v) => {
+                        m.insert(to.clone(), v);
+                        true
+                    }
+                    None => false,
+                },
+                _ => false,
+            }
+        }
     }
 }
 
@@ -536,9 +588,13 @@ pub fn op_name(op: &DocOp) -> &'static str {
         DocOp::SigShuffle(_) => "SIGSHUF",
         DocOp::SigValueFrom { .. } => "SIGSWAP",
         DocOp::Relabel { .. } => "RELABEL",
+        DocOp::RelabelId { .. } => "RELABEL",
+        DocOp::SigDupAs { .. } => "SIGDUP-RELABEL",
         DocOp::SigFlip { .. } => "SIGFLIP",
         DocOp::Set { .. } => "EDIT",
         DocOp::Remove { .. } => "EDIT",
+        DocOp::Insert { .. } => "EDIT",
+        DocOp::Rename { .. } => "EDIT",
     }
 }
 
